@@ -347,7 +347,12 @@ impl Host<'_> {
     fn font_dcs(&mut self) -> Piece {
         use base64_lite::encode;
         let slot = self.rng.below(6);
-        let mut data: Vec<u8> = match self.rng.below(4) {
+        let mut data: Vec<u8> = match self.rng.below(5) {
+            4 => {
+                // no font at all, or a sliver of one
+                let n = self.rng.usize(5);
+                (0..n).map(|_| self.rng.byte()).collect()
+            }
             0 => vec![0u8; 256 * 16],
             1 => (0..256 * 8).map(|i| (i * 7) as u8).collect(),
             2 => (0..256 * 14).map(|i| (i * 13) as u8).collect(),
@@ -589,6 +594,29 @@ impl Host<'_> {
             self.other_token()
         }
     }
+}
+
+/// A file made of the pieces a host would send (control functions, DCS with fonts, macros and sixels, OSC, music,
+/// text): what a captured session looks like when it is saved under a file extension and loaded again.
+pub fn stream_for_file(rng: &mut Rng, emu: &'static str) -> Vec<u8> {
+    let music = *rng.pick(&MUSIC);
+    let budget = *rng.pick(&[40usize, 200, 800]);
+    let mut host = Host {
+        rng,
+        w: 80,
+        h: 25,
+        profile: Profile::Crash,
+        emu,
+        music,
+        allow_resize: true,
+        allow_osc: true,
+        big: &[],
+    };
+    let mut v = Vec::new();
+    while v.len() < budget {
+        v.extend(host.token().bytes);
+    }
+    v
 }
 
 /// Minimal base64 (standard alphabet, padded) so the harness needs no extra crate.
